@@ -102,7 +102,7 @@ static int uid_of_unit(ABT_unit u)
 typedef struct {
     int id, kind /*0 ULT 1 tasklet*/, stat, nsteps;
     ABT_thread th;
-    volatile int begun, done, migdone, made;
+    volatile int begun, done, migdone, made, migtgt;
 } wu_t;
 static wu_t U[MAXU + 1];
 static int g_nu, g_ns;
@@ -282,6 +282,27 @@ static ABT_unit l_pop(ABT_pool pool)
     int s = x_pop_slot(pool_index(pool));
     return s < 0 ? ABT_UNIT_NULL : (ABT_unit)S[s].addr;
 }
+/* ABT_thread_yield_to takes its target out of the target's pool */
+static int l_remove(ABT_pool pool, ABT_unit u)
+{
+    int p = pool_index(pool);
+    int s = slot_of_unit(u);
+    lk();
+    pdata_t *d = &PD[p];
+    int uid = (s >= 0 && S[s].uid) ? S[s].uid : -1, found = 0;
+    for (int i = 0; i < d->n; i++)
+        if (d->q[i] == s) {
+            for (int k = i; k + 1 < d->n; k++)
+                d->q[k] = d->q[k + 1];
+            d->n--;
+            S[s].queued--;
+            found = 1;
+            break;
+        }
+    EV("\"e\":\"URemove\",\"p\":%d,\"u\":%d,\"found\":%d", p, uid, found);
+    ul();
+    return found ? ABT_SUCCESS : ABT_ERR_POOL;
+}
 static int l_free_pool(ABT_pool pool)
 {
     (void)pool;
@@ -334,6 +355,7 @@ static void make_pool(int p)
         def.p_push = l_push;
         def.p_pop = l_pop;
         def.p_free = l_free_pool;
+        def.p_remove = l_remove;
         switch (p) {
             case 0: def.u_create_from_thread = l_create_thread_0, def.u_create_from_task = l_create_task_0, def.u_free = l_free_0; break;
             case 1: def.u_create_from_thread = l_create_thread_1, def.u_create_from_task = l_create_task_1, def.u_free = l_free_1; break;
@@ -438,7 +460,7 @@ static void mig_cb(ABT_thread th, void *arg)
         p = -2; /* some built-in pool */
     else if (s >= 0)
         p = S[s].pool;
-    EV("\"e\":\"MigCb\",\"t\":%d,\"p\":%d,\"u\":%d", w->id, p, uid_of_unit(un));
+    EV("\"e\":\"MigCb\",\"t\":%d,\"p\":%d,\"u\":%d,\"tgtuser\":%d", w->id, p, uid_of_unit(un), w->migtgt >= 0 ? g_kind[w->migtgt] != 'B' : -1);
     w->migdone++;
 }
 static void look(int by, wu_t *w)
@@ -472,8 +494,8 @@ static void body(void *arg)
         CHK(ABT_eventual_wait(g_ev, NULL));
     } else {
         for (int i = 0; i < w->nsteps; i++) {
-            int op = rnd(9);
-            if (w->kind == 1 && (op == 0 || op == 3))
+            int op = rnd(10);
+            if (w->kind == 1 && (op == 0 || op == 3 || op == 8))
                 op = 2;
             switch (op) {
                 case 0:
@@ -497,6 +519,7 @@ static void body(void *arg)
                     int before = w->migdone;
                     if (g_fail && rnd(2) == 0)
                         g_failn[p] = 1 + rnd(2);
+                    w->migtgt = p;
                     int r = ABT_thread_migrate_to_pool(w->th, P[p]);
                     EV("\"e\":\"UMigReq\",\"t\":%d,\"p\":%d,\"ret\":%d", w->id, p, r != ABT_SUCCESS);
                     if (r == ABT_SUCCESS) {
@@ -520,6 +543,23 @@ static void body(void *arg)
                     for (int k = g_ns + 1; k <= g_nu; k++)
                         if (!g_claim[k]) {
                             create_unit_of(&U[k], w->id);
+                            break;
+                        }
+                    break;
+                case 8:
+                    /* the old directed yield: the target is taken out of ITS pool (single stream only:
+                     * the target must be ready and in its pool when the call is made) */
+                    if (g_nes == 1 && w->kind == 0)
+                        for (int k = g_ns + 1; k <= g_nu; k++) {
+                            ABT_thread_state st;
+                            if (k == w->id || !U[k].made || U[k].done || U[k].kind != 0 || g_reaped[k] || U[k].th == ABT_THREAD_NULL)
+                                continue;
+                            if (ABT_thread_get_state(U[k].th, &st) != ABT_SUCCESS || st != ABT_THREAD_STATE_READY)
+                                continue;
+                            EV("\"e\":\"SMove\",\"t\":%d,\"from\":-1,\"to\":-1,\"how\":8", k);
+                            int r = ABT_thread_yield_to(U[k].th);
+                            if (r != ABT_SUCCESS && r != ABT_ERR_POOL) /* ERR_POOL: the target's pool has no remove() */
+                                CHK(r);
                             break;
                         }
                     break;
